@@ -56,6 +56,8 @@ def parse_runs(out):
             cur["res"][int(w[1])] = w[2:]
         elif w[0] == "info":
             cur["info"][w[1]] = w[2:]
+        elif w[0] == "fin":
+            cur["info"]["fin"] = w[1:]
         elif w[0] == "mon":
             cur["mon"] = " ".join(w[1:])
         elif w[0] == "sched":
@@ -100,6 +102,57 @@ def once_replay_on_model(sc, run, U):
     return None
 
 
+
+def once_script_run(exe, callers, throws, script):
+    sc = {"callers": callers, "throws": throws}
+    rc, out, err = sh([exe, "script", script], input=once_text(sc), timeout=900)
+    runs = parse_runs(out)
+    return sc, rc, runs, err
+
+
+def once_many_callers(ck, exe, U, bad_corr, bad_mon):
+    """Directed scenarios with more callers than the reference mask can count (U = collaborative_once_max_references).
+    (a) saturation: 1 winner, then U+1 helpers arrive one after the other, each stopping right after its `CAS +1`:
+        U-1 of them pin the runner (low bits = mask), the others must wait in spin_wait_while_eq(m_state, max_value);
+        obligation: monitors quiet + trace replays on the model.
+    (b) stale expected (informational, beyond the 2-8 thread bound of the property): a caller that read `expected` under
+        a previous runner arrives when the low bits are saturated; its CAS carries into the pointer bits."""
+    T = U + 2
+    script = ",".join(["0:C"] + ["%d:C" % i for i in range(1, T)])
+    sc, rc, runs, err = once_script_run(exe, [1] * T, [], script)
+    if not runs or rc not in (0, 1, 3):
+        bad_mon.append((sc, {"mon": "harness crashed rc=%d %s" % (rc, err[-300:]), "sched": [], "ev": []}))
+    else:
+        r = runs[0]
+        ck.count(1, ("once-saturate", T, r["mon"]))
+        if r["mon"] != "ok":
+            bad_mon.append((sc, r))
+        d = once_replay_on_model(sc, r, U)
+        ck.traces_validated += 1
+        if d:
+            bad_corr.append((sc, r, d))
+        pins = max([int(e.split()[3].split(".")[1]) for (_, e) in r["ev"] if e.startswith("cas state") and e.endswith(" 1")] + [0])
+        ck.extra.setdefault("schedules", {}).setdefault("collaborative_call_once", {})["saturation_max_low_bits"] = pins
+    # (b)
+    script = ",".join(["0:C", "1:S3", "0:Z", "2:C"] + ["%d:C" % i for i in range(3, T)] + ["1:C"])
+    sc, rc, runs, err = once_script_run(exe, [1] * T, [0], script)
+    info = {"callers": T, "script": script[:80] + " ...", "what": "caller 1 reads `expected` = runner of caller 0 (whose invocation throws), caller 2 wins the "
+            "next attempt, callers 3..%d pin it (low bits = mask), then caller 1's spin_wait_while_eq(m_state, expected|mask) returns at once because the "
+            "pointer bits differ and its CAS(expected, expected+1) carries into the pointer bits" % (T - 1)}
+    if runs:
+        r = runs[0]
+        info["monitor"] = r["mon"]
+        info["overflow_event"] = next((e for (_, e) in r["ev"] if e.startswith("cas state") and "?" in e), None)
+        info["model_agrees"] = once_replay_on_model(sc, r, U)
+        info["schedule_len"] = len(r["sched"])
+    else:
+        info["monitor"] = "harness rc=%d %s" % (rc, err[-200:])
+    ck.extra["beyond_bound_observation"] = info
+    if runs and runs[0]["mon"] != "ok":
+        log("NOTE (outside the 2-8 thread bound of C19, not an obligation): with %d concurrent callers the helper count overflows into the "
+            "runner pointer on the unchanged header: %s" % (T, info.get("overflow_event")))
+
+
 ONCE_CORPUS = [
     {"callers": [1, 1], "throws": []},
     {"callers": [1, 1], "throws": [0]},
@@ -117,8 +170,9 @@ def once_scenarios(ck, n):
         T = rng.choice([2, 2, 3, 3, 4, 5, 6, 8])
         calls = [rng.choice([1, 1, 1, 2, 3]) for _ in range(T)]
         total = sum(calls)
-        k = rng.choice([0, 0, 1, 1, 2, 3, total])
-        throws = sorted(rng.sample(range(total), min(k, total)))
+        # only a prefix of throwing invocations is ever executed (the first success ends the game): mostly prefixes, plus stray later ones
+        k = min(rng.choice([0, 0, 1, 1, 2, 3, total]), total)
+        throws = sorted(set(range(k)) | set(rng.sample(range(total), rng.choice([0, 0, 1]))))
         scs.append({"callers": calls, "throws": throws})
     return scs
 
@@ -160,7 +214,228 @@ def run_once_family(ck, U):
             bad_mon.append((sc, rs[-1] if rs else {"mon": "harness rc=%d %s" % (rc, (out + err)[-300:]), "sched": [], "ev": []}))
     ck.evaluations += dfs_runs
     ck.extra.setdefault("schedules", {})["collaborative_call_once"] = {"random_runs": nruns, "dfs_runs": dfs_runs, "scenarios": len(scs)}
+    once_many_callers(ck, exe, U, bad_corr, bad_mon)
+    if bad_corr and not bad_mon:
+        extended_search(ck, exe, once_text, [x[0] for x in bad_corr[:3] if len(x[0]["callers"]) <= 8] + ONCE_CORPUS, bad_mon)
     return bad_corr, bad_mon
+
+
+
+# ------------------------------------------------------------------------------------------------
+# enumerable_thread_specific / combinable
+# ------------------------------------------------------------------------------------------------
+
+def build_ets():
+    return cxx_build("C19", "ets", [H + "ets.cpp", common.SHIM_SRC, STUBS],
+                     flags=["-O1", "-g", "-fno-access-control"] + common.SHIM_FLAGS)
+
+
+def ets_text(sc):
+    t = "kind %d\nthreads %s\n" % (sc["kind"], " ".join(map(str, sc["threads"])))
+    if sc["kind"] == 0:
+        t += "keys %s\n" % " ".join(map(str, sc["keys"]))
+    return t
+
+
+def ets_replay_on_model(sc, run, B, L0):
+    T = len(sc["threads"])
+    hs = run["info"].get("hashes", [])
+    if len(hs) != T:
+        return "harness printed %d hashes for %d threads" % (len(hs), T)
+    lines = ["reset", "cfg %d %d" % (B, L0)] + ["thread %s %d" % (hs[t], sc["threads"][t]) for t in range(T)]
+    for (t, _) in run["ev"]:
+        lines.append("s %d" % t)
+    lines.append("state")
+    out = drv("c19ets", "\n".join(lines) + "\n")[2 + T:]
+    last = {}
+    for i, (t, ev) in enumerate(run["ev"]):
+        m = out[i].split(" | ")
+        if m[0] != ev:
+            return "access %d (thread %d): implementation `%s`, model `%s`" % (i, t, ev, m[0])
+        last[t] = m[1].split() if len(m) > 1 else []
+    for t in range(T):
+        if sc["threads"][t] == 0:
+            continue
+        if t not in last:
+            return "thread %d produced no trace" % t
+        left, res = last[t][0], last[t][1:]
+        if left != "0":
+            return "thread %d: the model still has %s lookups to finish at the end of the trace" % (t, left)
+        if res != run["res"].get(t, []):
+            return "thread %d results: implementation %s, model %s" % (t, run["res"].get(t), res)
+    st = out[len(run["ev"])].split(" | ")
+    fin = " ".join(run["info"].get("fin", [])).split(" | ") if "fin" in run["info"] else None
+    if st[-1].strip() != "0":
+        return "model reached a bad state (null root at insert / access outside an array)"
+    if fin is not None:
+        if st[0].split() != fin[0].split() or st[1].strip() != fin[1].strip():
+            return "final table: implementation arrays %s count %s, model arrays %s count %s" % (fin[0], fin[1], st[0], st[1])
+        if sorted(st[2].split()) != sorted(fin[2].split() if len(fin) > 2 else []):
+            return "elements in my_locals: implementation creators %s, model %s" % (fin[2] if len(fin) > 2 else "", st[2])
+    return None
+
+
+def ets_keys(rng, T, style):
+    """64-bit keys whose top 6 bits (the start index in arrays of up to 64 slots) follow `style`."""
+    tops = []
+    for t in range(T):
+        if style == "same":
+            tops.append(tops[0] if tops else rng.randrange(64))
+        elif style == "end":          # start at the last slots: probing wraps around
+            tops.append(63 - rng.randrange(2))
+        elif style == "pairs":
+            tops.append(rng.choice([0, 21, 42, 63]))
+        else:
+            tops.append(rng.randrange(64))
+    return [(tops[t] << 58) | (rng.randrange(1 << 20) << 8) | (t + 1) for t in range(T)]
+
+
+ETS_CORPUS = [
+    {"kind": 0, "threads": [2, 2], "keys": [(5 << 58) | 1, (5 << 58) | 2]},
+    {"kind": 0, "threads": [1, 1, 2], "keys": [(63 << 58) | 1, (63 << 58) | 2, (63 << 58) | 3]},
+    {"kind": 0, "threads": [2, 1, 1, 1, 1], "keys": [(t * 13 % 64 << 58) | (t + 1) for t in range(5)]},
+    {"kind": 1, "threads": [2, 2, 1]},
+    {"kind": 2, "threads": [1, 2, 1]},
+    {"kind": 0, "threads": [2, 1, 1, 1, 1, 1, 1, 1, 2], "keys": [(40 << 58) | (t + 1) for t in range(9)]},
+]
+
+
+def ets_scenarios(ck, n):
+    rng = ck.rng
+    scs = []
+    for _ in range(n):
+        T = rng.choice([1, 2, 3, 3, 4, 5, 5, 6, 7, 8, 9, 9])
+        kind = rng.choice([0, 0, 0, 1, 2])
+        th = [rng.choice([1, 1, 2, 3]) for _ in range(T)]
+        if T > 2 and rng.random() < 0.2:
+            th[rng.randrange(T)] = 0
+        sc = {"kind": kind, "threads": th}
+        if kind == 0:
+            sc["keys"] = ets_keys(rng, T, rng.choice(["same", "end", "pairs", "rand", "rand"]))
+        scs.append(sc)
+    return scs
+
+
+def run_ets_family(ck, B, L0):
+    quick = ck.tier == "quick"
+    exe = build_ets()
+    scs = ETS_CORPUS + ets_scenarios(ck, 30 if quick else 300)
+    nrand = 20 if quick else 100
+    bad_corr, bad_mon = [], []
+    nruns = 0
+    doublings = set()
+    for si, sc in enumerate(scs):
+        rc, out, err = sh([exe, "rand", str(ck.seed * 1000 + si), str(nrand)], input=ets_text(sc), timeout=900)
+        runs = parse_runs(out)
+        for r in runs:
+            r["rand_args"] = [str(ck.seed * 1000 + si), str(nrand)]
+            nruns += 1
+            fin = r["info"].get("fin", ["0"])
+            doublings.add(int(fin[0]))
+            kinds = tuple(sorted(set(e.split()[0] + ":" + e.split()[1].split(":")[0] + ":" + e.split()[-1] for (_, e) in r["ev"])))
+            ck.count(1, ("ets", sc["kind"], len(sc["threads"]), fin[0], kinds, tuple(len(v) for v in r["res"].values())))
+            if r["mon"] != "ok":
+                bad_mon.append((sc, r))
+            d = ets_replay_on_model(sc, r, B, L0)
+            ck.traces_validated += 1
+            if d:
+                bad_corr.append((sc, r, d))
+        if rc not in (0, 1, 3) or (rc == 0 and len(runs) != nrand):
+            bad_mon.append((sc, {"mon": "harness crashed rc=%d %s" % (rc, err[-300:]), "sched": [], "ev": []}))
+        if si in (0, 3) and runs:
+            ck.sample({"what": "enumerable_thread_specific/combinable", "scenario": sc, "trace_head": runs[0]["ev"][:14], "results": runs[0]["res"], "final": runs[0]["info"].get("fin")})
+    dfs_runs = 0
+    # DFS needs a deterministic program: only scenarios with chosen keys (real thread ids hash differently in every run)
+    dfs_scs = [sc for sc in ETS_CORPUS if sc["kind"] == 0][:2 if quick else 3]
+    for sc in dfs_scs:
+        rc, out, err = sh([exe, "dfs", "2" if quick else "3", "5000" if quick else "150000"], input=ets_text(sc), timeout=1500)
+        m = re.search(r"summary runs=(\d+) bad=(\d+)", out)
+        if m:
+            dfs_runs += int(m.group(1))
+        if rc != 0 or not m or m.group(2) != "0":
+            rs = parse_runs(out)
+            bad_mon.append((sc, rs[-1] if rs else {"mon": "harness rc=%d %s" % (rc, (out + err)[-300:]), "sched": [], "ev": []}))
+    ck.evaluations += dfs_runs
+    ck.extra.setdefault("schedules", {})["ets"] = {"random_runs": nruns, "dfs_runs": dfs_runs, "scenarios": len(scs),
+                                                     "arrays_in_chain_seen": sorted(doublings)}
+    if bad_corr and not bad_mon:
+        extended_search(ck, exe, ets_text, [x[0] for x in bad_corr[:3]] + ETS_CORPUS, bad_mon)
+    return bad_corr, bad_mon
+
+
+
+def extended_search(ck, exe, text_of, scs, bad_mon):
+    """A correspondence broke but no monitor fired yet: look harder for a schedule on which the PROPERTY fails
+    (more seeds on the scenarios whose traces diverged and on the corpus, deeper bounded-preemption DFS)."""
+    quick = ck.tier == "quick"
+    tried = 0
+    for si, sc in enumerate(scs):
+        rc, out, err = sh([exe, "rand", str(ck.seed * 7777 + 31 * si + 5), str(150 if quick else 1500)], input=text_of(sc) + "quiet\n", timeout=1200)
+        m = re.search(r"summary runs=(\d+) bad=(\d+)", out)
+        tried += int(m.group(1)) if m else 0
+        if rc != 0 or not m or m.group(2) != "0":
+            rs = parse_runs(out)
+            bad_mon.append((sc, rs[0] if rs else {"mon": "harness rc=%d %s" % (rc, (out + err)[-300:]), "sched": [], "ev": []}))
+            break
+    if not bad_mon:
+        for sc in scs[:3]:
+            if sum(sc.get("callers", sc.get("threads", []))) > 6:
+                continue
+            rc, out, err = sh([exe, "dfs", "3", "30000" if quick else "400000"], input=text_of(sc), timeout=1500)
+            m = re.search(r"summary runs=(\d+) bad=(\d+)", out)
+            tried += int(m.group(1)) if m else 0
+            if rc != 0 or not m or m.group(2) != "0":
+                rs = parse_runs(out)
+                bad_mon.append((sc, rs[-1] if rs else {"mon": "harness rc=%d %s" % (rc, (out + err)[-300:]), "sched": [], "ev": []}))
+                break
+    ck.evaluations += tried
+    ck.extra.setdefault("extended_search_runs", 0)
+    ck.extra["extended_search_runs"] += tried
+
+
+
+# ------------------------------------------------------------------------------------------------
+# E-REAL: the same monitors against the real runtime (arenas, workers), OS schedules
+# ------------------------------------------------------------------------------------------------
+
+def run_real(ck):
+    if not os.path.isdir(os.path.join(REPO, "_build")):
+        ck.assumptions.append("E-REAL part (real libtbb: callers inside arenas, moonlighting workers) skipped: %s has no _build directory" % REPO)
+        ck.extra["e_real"] = "skipped (no _build under %s)" % REPO
+        return
+    libdir = common.ensure_repo_built(targets=("tbb",)) or common.find_tbb_lib()
+    if not libdir:
+        raise common.BuildError("no libtbb.so under %s/_build" % REPO)
+    exe = cxx_build("C19", "real", [H + "real.cpp"], flags=["-O1", "-g", "-pthread", "-fno-access-control"],
+                    libs=["-L" + libdir, "-ltbb", "-Wl,-rpath," + libdir])
+    rng = ck.rng
+    quick = ck.tier == "quick"
+    lines = []
+    for _ in range(8 if quick else 60):
+        T = rng.choice([2, 3, 4, 6, 8])
+        calls = rng.choice([1, 1, 2, 3])
+        k = min(rng.choice([0, 1, 2, 3, T * calls]), T * calls)
+        throws = sorted(set(range(k)) | set(rng.sample(range(T * calls), rng.choice([0, 1]))))
+        lines.append("once %s %d %d %d %s" % (rng.choice("tpn"), T, calls, 60 if quick else 400, " ".join(map(str, throws))))
+    for _ in range(4 if quick else 30):
+        lines.append("ets %s %d %d %d" % (rng.choice("ec"), rng.choice([1, 2, 3, 5, 8, 9]), rng.choice([1, 2, 3]), 60 if quick else 400))
+    rc, out, err = sh([exe], input="\n".join(lines) + "\n", timeout=1500)
+    outs = out.split("\n")[:-1]
+    bad = None
+    if rc != 0 or len(outs) != len(lines):
+        i = min(len(outs), len(lines) - 1)
+        bad = (lines[i], "harness rc=%d (crash or hang) %s" % (rc, err[-300:]))
+    else:
+        for l, o in zip(lines, outs):
+            ck.count(1, ("real",) + tuple(l.split()[:4]))
+            if not o.startswith("ok"):
+                bad = bad or (l, o)
+    ck.extra["e_real"] = {"scenarios": len(lines), "sample": list(zip(lines[:3], outs[:3]))}
+    ck.oblige("monitor:real-runtime collaborative_call_once / ETS / combinable (callers in std::threads, in parallel_for bodies, function with nested "
+              "parallelism; OS schedules)", "correspondence", bad is None, "" if bad is None else "%s | scenario `%s`" % (bad[1], bad[0]))
+    if bad is not None:
+        ck.counterexample("real:" + re.sub(r"[^A-Za-z]+", "-", " ".join(bad[1].split(" ")[1:8])).strip("-"), "real runtime: %s on `%s`" % (bad[1], bad[0]),
+                          {"engine": "E-REAL", "family": "real", "line": bad[0], "note": "OS-scheduled: re-run the line repeatedly"})
 
 
 def report_family(ck, name, what_mon, bad_corr, bad_mon, mk_replay):
@@ -171,16 +446,18 @@ def report_family(ck, name, what_mon, bad_corr, bad_mon, mk_replay):
     if bad_mon:
         sc, r = min(bad_mon, key=lambda x: len(x[1].get("sched", [])) or 10 ** 9)
         mon = r["mon"]
-        key = re.sub(r"[^A-Za-z0-9]+", "-", " ".join(mon.split(" ")[1:7])).strip("-") or "harness"
+        key = re.sub(r"[^A-Za-z]+", "-", " ".join(mon.split(" ")[1:8])).strip("-") or "harness"
         ck.counterexample("%s:%s" % (name, key), "%s: %s under schedule %s" % (name, mon, " ".join(r["sched"])),
                           mk_replay(sc, r))
 
 
 def run(ck):
-    ck.rule = ("E-SHIM: hand-written + seeded random scenarios (2-8 callers x 1-3 calls, the user function throwing on chosen invocation numbers; "
-               "1-9 threads x 1-3 lookups on one enumerable_thread_specific / combinable with chosen or real keys so that the table doubles 0-3 times), "
-               "each under seeded random schedules with access-by-access replay on the Lean model, plus bounded-preemption DFS of the small scenarios "
-               "with implementation-side monitors; distinct = distinct (family, #threads, #throws or #doublings, access kinds seen, outcomes) classes")
+    ck.rule = ("E-SHIM: hand-written + seeded random scenarios (collaborative_call_once: 2-8 callers x 1-3 calls, the user function throwing on chosen "
+               "invocation numbers; ETS/combinable: 1-9 threads x 0-3 lookups with chosen colliding / wrapping / random keys or real thread ids, so that the "
+               "table doubles 0-3 times), each under seeded random schedules with access-by-access replay on the Lean model, plus bounded-preemption DFS "
+               "of the small scenarios and one directed 130-caller saturation schedule, all with implementation-side monitors; E-REAL: seeded scenarios "
+               "on the real runtime (std::threads / parallel_for bodies / nested parallelism inside the function); distinct = distinct (family, #threads, "
+               "#throws or #arrays, access kinds seen, outcomes) classes")
     ck.assumptions += [
         "proved on the model (N threads <= collaborative_once_max_references, all schedules, all throw oracles; sequentially consistent interleavings)",
         "release/acquire visibility is not modelled (the shim serialises accesses); memory orders are recorded in the trace only",
@@ -188,13 +465,37 @@ def run(ck):
         "reached by collaborative_call_once.h (task_arena attach/execute, isolate_within_arena, execute_and_wait, wait, task_group_context) are "
         "harness-local stubs under E-SHIM (a helper blocked inside uninstrumented libtbb would hold the baton forever)",
         "weak CAS never fails spuriously under the shim"]
+    ck.assumptions += [
+        "EtsTable model: create_local() (my_locals.grow_by + construction) is merged with the following ++my_count; (i+1)&mask is modelled as (i+1) % 2^lg; "
+        "std::hash of the key is a parameter (every assignment of 64-bit hashes is covered by the theorems); deletion/clear() and copy/move of containers "
+        "are not modelled (not concurrent operations)",
+        "OnceFlag theorems need #callers <= collaborative_once_max_references (=128): beyond that the helper count CAN overflow into the runner pointer "
+        "(stale `expected`; shown on the model by once_refcount_overflow_beyond_bound and on the real header with 130 callers, see beyond_bound_observation)"]
     ck.trusted += ["harness/shim (atomic shim + baton scheduler)", "harness/c19/*.cpp monitors and r1 stubs", "trace replay in checks/c19.py (sampled correspondence)"]
     c = gen(ck)
     ck.lean_stage()
     bc, bm = run_once_family(ck, c["maxRefs"])
     report_family(ck, "collaborative_call_once",
                   "one successful completion, callers return after it and see its effects, exception to the winner only, flag reset, runner lifetime, no deadlock (random + bounded-preemption DFS)",
-                  bc, bm, lambda sc, r: {"engine": "E-SHIM", "family": "once", "scenario": sc, "schedule": r["sched"], "monitor": r["mon"], "trace": r.get("ev", [])[:300]})
+                  bc, bm, lambda sc, r: {"engine": "E-SHIM", "family": "once", "scenario": sc, "schedule": r["sched"], "monitor": r["mon"], "trace": r.get("ev", [])[-300:]})
+    bc, bm = run_ets_family(ck, c["etsHashBits"], c["etsInitLg"])
+    report_family(ck, "ets",
+                  "one initialiser call and one stable element per thread, no sharing, exists flag, iteration/combine_each visit each element once, count, no deadlock (random + bounded-preemption DFS)",
+                  bc, bm, lambda sc, r: {"engine": "E-SHIM", "family": "ets", "scenario": sc, "schedule": r["sched"], "monitor": r["mon"],
+                                         "hashes": r.get("info", {}).get("hashes"), "rand_args": r.get("rand_args"), "trace": r.get("ev", [])[:300]})
+    run_real(ck)
+
+
+
+def print_digest(out):
+    """replay output: verdict lines in full, the trace tail, long lines shortened"""
+    lines = out.split("\n")
+    ev = [l for l in lines if l.startswith("e ")]
+    for l in ev[-40:]:
+        print(l)
+    for l in lines:
+        if l and not l.startswith("e "):
+            print(l if len(l) < 400 else l[:400] + " ...")
 
 
 def replay(ck, obj):
@@ -202,6 +503,23 @@ def replay(ck, obj):
     if r["family"] == "once":
         exe = build_once()
         rc, out, err = sh([exe, "replay", ",".join(r["schedule"])], input=once_text(r["scenario"]), timeout=300)
-        print(out[-6000:])
+        print_digest(out)
+        return 0 if rc == 0 else 1
+    if r["family"] == "real":
+        libdir = common.ensure_repo_built(targets=("tbb",)) or common.find_tbb_lib()
+        exe = cxx_build("C19", "real", [H + "real.cpp"], flags=["-O1", "-g", "-pthread", "-fno-access-control"],
+                        libs=["-L" + libdir, "-ltbb", "-Wl,-rpath," + libdir])
+        rc, out, err = sh([exe], input=(r["line"] + "\n") * 20, timeout=1500)
+        print(out[-3000:])
+        return 0 if rc == 0 and all(o.startswith("ok") for o in out.split("\n")[:-1]) else 1
+    if r["family"] == "ets":
+        exe = build_ets()
+        if r["scenario"]["kind"] != 0 and r.get("rand_args"):
+            # real thread ids: the hashes depend on the position of the run inside the process; re-run the same invocation
+            rc, out, err = sh([exe, "rand"] + r["rand_args"], input=ets_text(r["scenario"]) + "quiet\n", timeout=900)
+            print_digest(out)
+            return 0 if rc == 0 else 1
+        rc, out, err = sh([exe, "replay", ",".join(r["schedule"])], input=ets_text(r["scenario"]), timeout=300)
+        print_digest(out)
         return 0 if rc == 0 else 1
     return 2
